@@ -1,6 +1,7 @@
 package main
 
 import (
+	"os"
 	"fmt"
 	"go/types"
 	"strings"
@@ -325,13 +326,31 @@ func (e *Exec) applyContract(st *State, fr *Frame, site ssa.Instruction, c *Cont
 	}
 	e.pendingBindings = nil
 	if len(c.Shapes) > 0 {
-		// shape variables of the callee are unknown at an arbitrary call site
-		for _, n := range strings.Fields(strings.Join(c.Shapes, " ")) {
+		names := strings.Fields(strings.Join(c.Shapes, " "))
+		// shape variables of the callee are unknown at an arbitrary call site ...
+		for _, n := range names {
 			vs["has_"+n] = &specVar{v: Const(freshName("has."+n), SBool), t: tBool}
 			if ctor := e.P.funcs["gldap."+n]; ctor != nil && len(ctor.AnonFuncs) == 1 {
 				for _, fv := range ctor.AnonFuncs[0].FreeVars {
 					pt := fv.Type().Underlying().(*types.Pointer).Elem()
 					vs["arg_"+n] = &specVar{v: e.freshVal(st, "arg."+n, pt), t: pt}
+				}
+			}
+		}
+		// ... unless the option list is packed at the call site from the listed
+		// constructors, in the listed order: that is one of the verified shapes
+		present, ok := e.literalShape(st, fn, args, names)
+		if os.Getenv("GOVC_TRACE") != "" {
+			fmt.Fprintf(os.Stderr, "literalShape %s: %v %v\n", c.Name, ok, present)
+		}
+		if ok {
+			for _, n := range names {
+				b, has := present[n]
+				vs["has_"+n] = &specVar{v: BoolLit(has), t: tBool}
+				if has && b != nil {
+					ctor := e.P.funcs["gldap."+n]
+					pt := ctor.AnonFuncs[0].FreeVars[0].Type().Underlying().(*types.Pointer).Elem()
+					vs["arg_"+n] = &specVar{v: ctx.loadAt(b, pt), t: pt}
 				}
 			}
 		}
@@ -497,4 +516,50 @@ func literalVariadic(fn *ssa.Function, args []Val) bool {
 	}
 	t, ok := args[len(args)-1].(*Term)
 	return ok && t.S == SSlice && SlLen(t).IsLit()
+}
+
+// literalShape recognises a variadic option list of literal length whose
+// elements are closures made by the named constructors, strictly in the order
+// in which the shapes directive lists them. It returns, per constructor
+// present, the cell of its (single) captured argument.
+func (e *Exec) literalShape(st *State, fn *ssa.Function, args []Val, names []string) (map[string]Val, bool) {
+	if fn == nil || !literalVariadic(fn, args) {
+		return nil, false
+	}
+	sl := args[len(args)-1].(*Term)
+	n := int(SlLen(sl).LitVal().Int64())
+	et := under(fn.Params[len(fn.Params)-1].Type()).(*types.Slice).Elem()
+	out := map[string]Val{}
+	next := 0
+	for i := 0; i < n; i++ {
+		v, ok := e.load(st, elemRef(sl, IntLit(int64(i))), et).(*Term)
+		if !ok {
+			return nil, false
+		}
+		cl, ok := st.closures[v]
+		if !ok {
+			if os.Getenv("GOVC_TRACE") != "" {
+				fmt.Fprintf(os.Stderr, "literalShape: element %d is not a known closure: %s\n", i, v)
+			}
+			return nil, false
+		}
+		found := false
+		for ; next < len(names); next++ {
+			ctor := e.P.funcs["gldap."+names[next]]
+			if ctor != nil && len(ctor.AnonFuncs) == 1 && ctor.AnonFuncs[0] == cl.fn {
+				if len(cl.bindings) == 1 {
+					out[names[next]] = cl.bindings[0]
+				} else {
+					out[names[next]] = nil
+				}
+				next++
+				found = true
+				break
+			}
+		}
+		if !found {
+			return nil, false
+		}
+	}
+	return out, true
 }
